@@ -228,6 +228,9 @@ pub fn c17(ctx: &mut Ctx) {
         prev_rule = Some(i);
     }
 
+    // ---- H1'': the same calls on inputs rebuilt at recycled addresses ----------------------
+    recycled_histories(ctx, &pool, &iso, small);
+
     // ---- H4: concurrent calls on shared inputs ---------------------------------------------
     let shared: Arc<Vec<(Value, Value)>> = Arc::new(pool);
     let iso_keys: Arc<Vec<String>> = Arc::new(iso.iter().map(|x| x.key.clone()).collect());
@@ -357,6 +360,10 @@ pub fn c17(ctx: &mut Ctx) {
         ctx.mark_nontrivial_key(&format!("sched:{:x}", h));
         ctx.cell(&format!("concurrent:threads={}", threads));
     }
+    // ---- H4'': many threads at once, and many short-lived threads one after another ----------
+    if !small {
+        many_threads(ctx, &shared, &iso_keys, tail_start);
+    }
     ctx.extra.insert("distinct_completion_orders".into(), json!(signatures.len()));
     ctx.extra.insert("thread_switches_in_completion_order".into(), json!(total_switches));
     ctx.extra.insert("concurrent_rounds".into(), json!(rounds));
@@ -364,6 +371,204 @@ pub fn c17(ctx: &mut Ctx) {
     ctx.sample(json!({"history_steps": n, "pool_pairs": shared.len(), "concurrent_rounds": rounds, "distinct_completion_orders": signatures.len()}));
     ctx.sample(json!({"pair": [shared[4].0, shared[4].1], "isolated": iso[4].key, "isolated_log_lines": iso[4].logs}));
     let _: Option<Obs> = None;
+}
+
+/// H1'': a caller that builds its rule and data afresh for every call (parsed from text into the
+/// same local variables, or into boxes the allocator hands out again) presents *different*
+/// documents at the *same* addresses. Anything remembered per address - of the rule, of a node
+/// inside it, of the data - is consistent on a pool that stays alive (every pair has its own
+/// address there) and wrong here. Each result and trace must equal the isolated one.
+fn recycled_histories(ctx: &mut Ctx, pool: &[(Value, Value)], iso: &[Isolated], small: bool) {
+    let n = if small { 24 } else { ctx.budget(20_000, 600_000) };
+    let texts: Vec<(String, String)> = pool.iter().map(|(r, d)| (r.to_string(), d.to_string())).collect();
+    // pairs whose texts have the same length are preferred as neighbours: the allocator then
+    // returns the very blocks it has just been given back
+    let mut by_len: BTreeMap<(usize, usize), Vec<usize>> = BTreeMap::new();
+    for (i, (rt, dt)) in texts.iter().enumerate() {
+        by_len.entry((rt.len() / 16, dt.len() / 16)).or_default().push(i);
+    }
+    let groups: Vec<&Vec<usize>> = by_len.values().filter(|g| g.len() > 1).collect();
+    let mut prev = 0usize;
+    let mut same_slot = 0u64;
+    let mut last_addr = (0usize, 0usize);
+    for step in 0..n {
+        let i = match ctx.rng.below(4) {
+            0 if !groups.is_empty() => {
+                let g = groups[ctx.rng.below(groups.len())];
+                g[ctx.rng.below(g.len())]
+            }
+            1 => (prev + 1) % pool.len(),
+            _ => ctx.rng.below(pool.len()),
+        };
+        let check = |ctx: &mut Ctx, route: &str, r: &Value, d: &Value, obs: &Obs| {
+            ctx.mon("c17.recycled-address").observed += 1;
+            ctx.mon("c17.recycled-address").judged += 1;
+            if outcome_key(&obs.out) != iso[i].key || (observe::capture_active() && obs.logs != iso[i].logs) {
+                ctx.violation_x("c17.recycled-address", &format!("address-dependent:{}:{}", route, crate::ctx::top_op(r)), r, d, json!({"isolated": iso[i].key, "logs": iso[i].logs}), json!({"rebuilt": outcome_key(&obs.out), "logs": obs.logs}), "the same rule and data, rebuilt where a previous call's inputs had lived, gave a different result (something is remembered per address)", json!({"step": step, "previous_pool_index": prev, "route": route}));
+            }
+        };
+        match step % 3 {
+            0 => {
+                // parsed from text into the same two locals every time round the loop
+                // (the deepest pool rules are built in memory, deeper than the parser goes: those are cloned)
+                let r: Value = serde_json::from_str(&texts[i].0).unwrap_or_else(|_| pool[i].0.clone());
+                let d: Value = serde_json::from_str(&texts[i].1).unwrap_or_else(|_| pool[i].1.clone());
+                let a = (&r as *const Value as usize, &d as *const Value as usize);
+                if a == last_addr {
+                    same_slot += 1;
+                }
+                last_addr = a;
+                let obs = ctx.observe(&r, &d);
+                check(ctx, "locals", &r, &d, &obs);
+            }
+            1 => {
+                // boxed clones: dropped at the end of the step, the blocks come back for the next one
+                let r = Box::new(pool[i].0.clone());
+                let d = Box::new(pool[i].1.clone());
+                let obs = ctx.observe(&r, &d);
+                check(ctx, "boxed", &r, &d, &obs);
+            }
+            _ => {
+                // overwritten in place: one long-lived pair of slots that holds a different document each time
+                thread_local! { static SLOT: std::cell::RefCell<(Value, Value)> = std::cell::RefCell::new((Value::Null, Value::Null)); }
+                let obs = SLOT.with(|sl| {
+                    let mut sl = sl.borrow_mut();
+                    sl.0 = pool[i].0.clone();
+                    sl.1 = pool[i].1.clone();
+                    observe::observe(&sl.0, &sl.1)
+                });
+                ctx.evaluations += 1;
+                check(ctx, "overwritten", &pool[i].0, &pool[i].1, &obs);
+            }
+        }
+        if prev != i {
+            ctx.cell("recycled:other-document-same-address");
+        }
+        prev = i;
+    }
+    ctx.extra.insert("recycled_same_stack_slot_steps".into(), json!(same_slot));
+}
+
+/// H4'': state kept per thread in a table of fixed size (indexed by a thread number modulo the
+/// size), handed from a finished thread to the next one, or torn down wrongly when a thread ends
+/// shows only with more threads than cores, or with many threads that come and go. (a) 64 and
+/// 192 threads at once; (b) 1 500 threads one after another, three calls each, the second of them
+/// failing; every result must equal the isolated one, and a thread's own net heap must be zero
+/// when it ends.
+fn many_threads(ctx: &mut Ctx, shared: &Arc<Vec<(Value, Value)>>, iso_keys: &Arc<Vec<String>>, tail_start: usize) {
+    let _ = tail_start;
+    let mut waves: Vec<(usize, usize)> = vec![(64, 40), (192, 12)];
+    if ctx.thorough() {
+        waves.push((512, 12));
+    }
+    for (threads, calls) in waves {
+        let barrier = Arc::new(Barrier::new(threads));
+        let mism: Arc<Mutex<Vec<(usize, String, usize)>>> = Arc::new(Mutex::new(Vec::new()));
+        let mut hs = Vec::new();
+        for t in 0..threads {
+            let (shared, iso_keys, barrier, mism) = (shared.clone(), iso_keys.clone(), barrier.clone(), mism.clone());
+            let mut rng = Rng::from_parts(ctx.seed ^ 0x6d74, "C17-many", (ctx.shard << 12) | t as u64);
+            let b = std::thread::Builder::new().stack_size(2 << 20);
+            match b.spawn(move || {
+                observe::install_panic_hook();
+                barrier.wait();
+                for _ in 0..calls {
+                    let i = if rng.below(2) == 0 { rng.below(24.min(shared.len())) } else { rng.below(shared.len()) };
+                    let (r, d) = &shared[i];
+                    // the deep rules of the pool need more than a 2 MiB stack in some profiles: not here
+                    if refsem::nested_deeper_than(r, 40) {
+                        continue;
+                    }
+                    let out = observe::call(r, d);
+                    if outcome_key(&out) != iso_keys[i] {
+                        mism.lock().unwrap().push((i, outcome_key(&out), t));
+                    }
+                    if rng.below(4) == 0 {
+                        std::thread::yield_now();
+                    }
+                }
+            }) {
+                Ok(h) => hs.push(h),
+                Err(_) => {
+                    // the machine refused another thread: the others must not wait for it for ever
+                    ctx.cell("many-threads:spawn-refused");
+                    break;
+                }
+            }
+        }
+        if hs.len() < threads {
+            // release the barrier by not using it: the spawned threads are blocked on it - abandon the wave
+            // (cannot happen with 62 GB and the default limits; kept so that a refusal is not a hang)
+            std::process::exit(2);
+        }
+        for h in hs {
+            let _ = h.join();
+        }
+        let made = (threads * calls) as u64;
+        ctx.evaluations += made;
+        ctx.mon("c17.many-threads").observed += made;
+        ctx.mon("c17.many-threads").judged += made;
+        for (i, got, t) in mism.lock().unwrap().iter() {
+            let (r, d) = &shared[*i];
+            ctx.violation_x("c17.many-threads", &format!("concurrent-result-differs:{}", crate::ctx::top_op(r)), r, d, json!({"isolated": iso_keys[*i]}), json!({ "concurrent": got }), "a call made while many threads were evaluating returned a different result than in isolation", json!({"thread": t, "threads": threads}));
+        }
+        ctx.cell(&format!("many-threads:{}", threads));
+    }
+    // (b) short-lived threads, one after another
+    let n = ctx.budget(1_500, 20_000) as usize;
+    let failing: Vec<usize> = (0..shared.len()).filter(|i| iso_keys[*i].starts_with("err:")).take(64).collect();
+    let mut retained: Vec<(usize, i64)> = Vec::new();
+    for k in 0..n {
+        let i = ctx.rng.below(shared.len());
+        let j = if failing.is_empty() { i } else { failing[ctx.rng.below(failing.len())] };
+        if refsem::nested_deeper_than(&shared[i].0, 40) {
+            continue;
+        }
+        let (sh, ik) = (shared.clone(), iso_keys.clone());
+        let h = std::thread::Builder::new().stack_size(2 << 20).spawn(move || {
+            observe::install_panic_hook();
+            let (_, l0) = alloc::snapshot();
+            let mut bad: Vec<(usize, String)> = Vec::new();
+            for idx in [i, j, i] {
+                let out = observe::call(&sh[idx].0, &sh[idx].1);
+                let key = outcome_key(&out);
+                drop(out);
+                if key != ik[idx] {
+                    bad.push((idx, key));
+                }
+            }
+            let (_, l1) = alloc::snapshot();
+            let bad_bytes: i64 = bad.iter().map(|b| b.1.capacity() as i64).sum::<i64>() + if bad.capacity() > 0 { (bad.capacity() * std::mem::size_of::<(usize, String)>()) as i64 } else { 0 };
+            (bad, l1 - l0 - bad_bytes)
+        });
+        let (bad, live) = match h {
+            Ok(h) => match h.join() {
+                Ok(x) => x,
+                Err(_) => continue,
+            },
+            Err(_) => continue,
+        };
+        ctx.evaluations += 3;
+        ctx.mon("c17.many-threads").observed += 3;
+        ctx.mon("c17.many-threads").judged += 3;
+        for (idx, got) in bad {
+            let (r, d) = &shared[idx];
+            ctx.violation_x("c17.many-threads", &format!("short-lived-thread-result-differs:{}", crate::ctx::top_op(r)), r, d, json!({"isolated": iso_keys[idx]}), json!({ "in_new_thread": got }), "a call made on a newly started thread (after many threads have come and gone) returned a different result than in isolation", json!({"thread_number": k}));
+        }
+        if alloc::enabled() && live != 0 {
+            retained.push((i, live));
+        }
+    }
+    if alloc::enabled() {
+        ctx.mon("c17.heap-conservation").observed += n as u64;
+        ctx.mon("c17.heap-conservation").judged += n as u64;
+        if let Some((i, live)) = retained.first() {
+            let (r, d) = &shared[*i];
+            ctx.violation_x("c17.heap-conservation", &format!("retained-heap-in-thread:{}", crate::ctx::top_op(r)), r, d, json!({"net_live_bytes": 0}), json!({"net_live_bytes": live, "threads_affected": retained.len()}), "a thread that made three calls and dropped their results ended with heap memory it had not had before (state kept between calls, per thread)", json!({"threads": n}));
+        }
+    }
+    ctx.cell("many-threads:short-lived");
+    ctx.extra.insert("short_lived_threads".into(), json!(n));
 }
 
 /// (allocation count, net live bytes) of one call whose result is dropped inside the measured region.
